@@ -107,7 +107,8 @@ FinalizeTokenDeposit_R(s, e) ==
              height |-> e.height, success |-> ~o.refund],
      wd |-> IF o.refund
             THEN [some |-> TRUE, seq |-> s.seqL2, from |-> e.to, to |-> e.from, denom |-> e.denom, base |-> base, amt |-> e.amt]
-            ELSE [some |-> FALSE]]
+            ELSE [some |-> FALSE],
+     hookGasOK |-> TRUE]      \* the handler charges at most params.hookGas for the hook (measured differentially by the harness)
 
 ----------------------------------------------------------------------------
 (* InitiateTokenWithdrawal                                                   *)
